@@ -76,8 +76,10 @@ def mk_layered_architecture(layer_defs, seed: int = 0):
     return la
 
 
-def mk_layer_rule(la, spec: dict, seed: int = 0):
-    r = LayerRule().based_on(la).layers_that().are_named(spec["subj"])
+def mk_layer_rule(la, spec: dict, seed: int = 0, base=None):
+    """base: a LayerRule().based_on(la) object shared by several rules (each rule starts again at
+    layers_that()); None = a fresh LayerRule."""
+    r = (base if base is not None else LayerRule().based_on(la)).layers_that().are_named(spec["subj"])
     r = getattr(r, spec["verb"])()
     if spec.get("anything"):
         return r.access_any_layer() if spec["imp"] else r.be_accessed_by_any_layer()
@@ -176,13 +178,17 @@ def _tuplify(t):
     return tuple(_tuplify(c) for c in t)
 
 
-def build(ns, I, seed: int = 0, level_limit=None, phantom=False):
+def build(ns, I, seed: int = 0, level_limit=None, phantom=False, implicit=False):
     """Evaluable for (ns, I); the seed only permutes the order in which modules and imports
     are handed to the constructor.  phantom=True additionally hands over imports whose importee is
     not a module of the architecture (what the scanner produces for an import of a module removed
     by an exclusion, or of a name that is not a module): every leaf imports the same two such
     names; they must add neither modules nor imports."""
     ms, imps = list(ns), list(I)
+    if implicit:
+        # only the leaf modules are handed over; their ancestor packages exist because the hierarchy
+        # implies them (what a scan with module_path below root_path produces for the packages above it)
+        ms = [x for x in ns if not any(y.startswith(x + ".") for y in ns)]
     if phantom:
         lv = [x for x in ns if not any(y.startswith(x + ".") for y in ns) and x != ns[0]]
         for u in lv:
